@@ -343,6 +343,44 @@ pub fn run(p: &Params) -> Outcome {
             }
             ctx.nontrivial_enumerated((rec.len() * rec.len() * rec.len()) as u64);
             ctx.count_n("recognised_triples", (rec.len() * rec.len() * rec.len()) as u64);
+            // bit neighbours: descriptors that differ in exactly one bit of the band or of the
+            // attribute must never compare Equal (catches comparison keys that drop or merge bits)
+            let mut attrs: Vec<char> = vec!['C', 'X', 'A', 'a', '\u{0}', '\u{7f}', '\u{80}', '\u{ff}', '\u{100}', '\u{143}', '\u{ffff}', '\u{10000}', '\u{10041}', '\u{1f6f0}', '\u{fffff}', '\u{100000}', '\u{10ffff}', '\u{20000}', '\u{e0001}'];
+            for _ in 0..12 {
+                if let Some(ch) = char::from_u32(rng.range(0, 0x10FFFF) as u32) {
+                    attrs.push(ch);
+                }
+            }
+            let mut n_pairs = 0u64;
+            for &a in &attrs {
+                for b in 0..=255u8 {
+                    let x = (b, a);
+                    for j in 0..8 {
+                        let y = (b ^ (1 << j), a);
+                        check_order(ctx, c, x, y, x);
+                        n_pairs += 1;
+                    }
+                    if b % 16 == 3 {
+                        for k in 0..21 {
+                            if let Some(a2) = char::from_u32(a as u32 ^ (1 << k)) {
+                                check_order(ctx, c, x, (b, a2), x);
+                                n_pairs += 1;
+                            }
+                        }
+                    }
+                }
+                // all band pairs for this attribute, sampled stride
+                for b1 in (0..=255u8).step_by(5) {
+                    for b2 in 0..=255u8 {
+                        if b1 != b2 {
+                            check_order(ctx, c, (b1, a), (b2, a), (b1, a));
+                            n_pairs += 1;
+                        }
+                    }
+                }
+            }
+            ctx.nontrivial_enumerated(n_pairs);
+            ctx.count_n("bit_neighbour_and_same_attribute_pairs", n_pairs);
             // mixed triples
             let pickd = |rng: &mut Rng| -> (u8, char) {
                 match rng.below(4) {
